@@ -21,6 +21,8 @@ pub mod c12;
 pub mod c13;
 pub mod c14;
 pub mod c15;
+#[cfg(feature = "native")]
+pub mod c16;
 pub mod c18;
 #[cfg(feature = "native")]
 pub mod c19;
@@ -47,6 +49,8 @@ pub fn lookup(id: &str) -> Option<Box<dyn Check>> {
         "C15" => Some(Box::new(c15::C15)),
         #[cfg(feature = "native")]
         "C19" => Some(Box::new(c19::C19)),
+        #[cfg(feature = "native")]
+        "C16" => Some(Box::new(c16::C16)),
         "C20" => Some(Box::new(c20::C20)),
         "C18" => Some(Box::new(c18::C18)),
         _ => None,
